@@ -6,5 +6,5 @@ From GV Require Import model.Pruner model.Glob model.MultiFile.
 Extraction "extract/prune_model.ml"
   Pruner.from_thrift Pruner.should_prune Pruner.rg_should_prune Pruner.scan_hinted Pruner.scan_all
   Pruner.project Pruner.conv Pruner.col_consts
-  Glob.expand Glob.spec_expand Glob.files
+  Glob.expand Glob.expand_stack Glob.spec_expand Glob.files
   MultiFile.deal MultiFile.deal_mod.
